@@ -22,6 +22,7 @@ RULE = ("documents drawn from the deb-changelog(5) grammar by harness/props/clco
         "blank and white-space-only lines inside and between blocks, trailers with empty/odd names and mails "
         "('<', '>' inside), dates with and without day-of-week, one- and two-digit (space padded) days and hours; "
         "each text is given as str, UTF-8 bytes, list of lines (with and without LF) or an open text file; "
+        "one case in ten on an object that has already parsed another text (parse_changelog called twice); "
         "plus every fixture changelog of lib/debian/tests in three forms; plus one third of the budget as "
         "regex-leaf cases (seven patterns; seeds, single-edit mutants, random strings; bounded-exhaustive in "
         "the thorough tier).  non-trivial = a grammar case with a change line or an extra pair, a fixture, "
@@ -48,8 +49,10 @@ def _wf_case(rng, doc, src):
         rng.choice(doc["blocks"])["version"] = cl.gen_odd_version(rng)
         gen, src = False, "oddversion"
     text = cl.render_doc(doc)
+    # one case in ten: the same object has parsed another text before (parse_changelog called twice)
+    pre = rng.choice(cl.PRE_TEXTS) if rng.random() < 0.1 else None
     return {"kind": "wf", "text": text, "inp": cl.input_forms(rng, text),
-            "gen": cl.expected_attrs(doc) if gen else None, "src": src}
+            "gen": cl.expected_attrs(doc) if gen else None, "src": src, "pre": pre}
 
 
 def generate(rng, n, tier):
@@ -75,7 +78,8 @@ def generate(rng, n, tier):
     for c in cl.gen_lit_cases(rng, 30):
         yield c
     if tier == "thorough":
-        for c in cl.gen_leaf_exhaustive(5):
+        # the full sweep only with the full thorough budget; a deep run after a source change sweeps shorter strings
+        for c in cl.gen_leaf_exhaustive(5 if n >= BUDGET["thorough"] else 3):
             yield c
 
 
@@ -88,7 +92,7 @@ def run_impl(case):
         return {}
     if case["kind"] == "leaf":
         return {"groups": cl.leaf_groups(case["leaf"], case["s"])}
-    r, _ = cl.construct(case["inp"], strict=True)
+    r, _ = cl.construct(case["inp"], strict=True, pre=case.get("pre"))
     return r
 
 
@@ -122,6 +126,8 @@ def classify(case, obs):
         feats.append("pairs")
     if case["gen"] and any(b["comment"] for b in case["gen"]):
         feats.append("comment")
+    if case.get("pre") is not None:
+        feats.append("reparse")
     return "%s/%s/%db%s" % (src, case["inp"]["form"], len(obs["ok"]["blocks"]),
                             ("/" + "+".join(feats)) if feats else "")
 
@@ -156,6 +162,8 @@ def shrink(case):
             yield dict(case, s=s[:i] + s[i + 1:])
         return
     # simpler input form first, then fewer lines, then shorter lines
+    if case.get("pre") is not None:
+        yield dict(case, pre=None)
     if case["inp"]["form"] != "str":
         yield dict(case, inp={"form": "str", "text": case["text"]})
     lines = case["text"].split("\n")
@@ -177,7 +185,11 @@ def describe(case, obs):
         return {"literal": case["s"], "what": "coq/Changelog/Lit.v declit against coq/Lib/Dec.v dec"}
     if case["kind"] == "leaf":
         return {"leaf": cl.LEAF_NAMES[case["leaf"]], "subject": case["s"], "groups": obs["groups"]}
-    return {"call": "Changelog(<%s>, strict=True); str(); block attributes" % case["inp"]["form"],
+    return {"call": ("Changelog(<%s>, strict=True); str(); block attributes" % case["inp"]["form"])
+            if case.get("pre") is None else
+            ("c = Changelog(); c.parse_changelog(pre, strict=False) [errors ignored]; "
+             "c.parse_changelog(<%s>, strict=True); str(c); block attributes" % case["inp"]["form"]),
+            "pre": case.get("pre"),
             "text": case["text"],
             "specified": "if the text is in the deb-changelog grammar (Spec.wf_changelog): no exception, no warning, "
                          "str() == text, blocks expose exactly the written attributes",
